@@ -344,9 +344,15 @@ def generated(ctx, rng):
     for i, (pol, nd) in enumerate(plan):
         shape = shapes[(i * 2 + off + i // len(shapes)) % len(shapes)]
         indirect = G.POLICIES[pol][2]
-        out.append(G.make_scenario(rng, 's%d_%d_%s_%s' % (ctx.seed, i, pol, shape), shape, pol, ndebug=bool(nd),
-                                   sanitize=bool(indirect or i % 3 != 2), late_class=(i % 4 != 3), size=2 if i % 2 == 0 else 3,
-                                   dyn_class=(i % 3 == 1)))
+        scn = G.make_scenario(rng, 's%d_%d_%s_%s' % (ctx.seed, i, pol, shape), shape, pol, ndebug=bool(nd),
+                              sanitize=bool(indirect or i % 3 != 2), late_class=(i % 4 != 3), size=2 if i % 2 == 0 else 3,
+                              dyn_class=(i % 3 == 1))
+        if i % 3 == 0:
+            # the same program with every pointee const-qualified: virtual_ptr<const T>, shared_ptr<const T>,
+            # make_virtual_shared<const T>, virtual_<const T&> (cv-qualification must be transparent to every route)
+            scn['flags']['const_pointee'] = True
+            scn['name'] += '_const'
+        out.append(scn)
     return out
 
 
